@@ -37,6 +37,10 @@ fn base(rng: &mut Rng, b: u64) -> ConnScenario {
     client.info_delay_ns = ms(20);
     client.extras.push(crate::client::Extra { after_ack: true, at_ns: ms(5), id: 0x02, body: crate::client::Body::Raw { bytes: b"minecraft:brand\x07vanilla".to_vec() } });
     client.extras.push(crate::client::Extra { after_ack: true, at_ns: ms(10), id: 0x06, body: crate::client::Body::ResourcePack { result: 3 } });
+    // a serverbound Keep Alive nobody asked for, with an id at the edge of the value range
+    if rng.chance(1, 3) {
+        client.extras.push(crate::client::Extra { after_ack: true, at_ns: ms(7), id: 0x04, body: crate::client::Body::KeepAlive { id: crate::client::KaId::Fixed(*rng.pick(&[u64::MAX, 1u64 << 63, 0, i64::MAX as u64, 1u64 << 32])) } });
+    }
     // sometimes there is no target, so that the localized Disconnect path runs with whatever locale the client sent
     let targets = if rng.chance(1, 3) { vec![] } else { vec![crate::services::TargetSpec { id: "t".into(), addr: "10.0.0.5:25565".into(), meta: Default::default() }] };
     let services = Services {
@@ -90,7 +94,7 @@ fn generate(rng: &mut Rng, index: u64) -> ConnScenario {
     let mut menu: Vec<(usize, u8, u64)> = vec![]; // (frame, class, parameter)
     for (fi, f) in frames.iter().enumerate() {
         let len = f.end - f.start;
-        for k in 0..OUTER.len() as u64 + 4 {
+        for k in 0..OUTER.len() as u64 + 7 {
             menu.push((fi, 0, k));
         }
         for k in 0..len {
@@ -139,6 +143,11 @@ fn generate(rng: &mut Rng, index: u64) -> ConnScenario {
                 k if k == OUTER.len() => max,
                 k if k == OUTER.len() + 1 => max + 1,
                 k if k == OUTER.len() + 2 => len as i32, // one more than the real body (prefix included)
+                // the real length with a high bit on top (a four- or five-byte prefix whose low bits look harmless)
+                k if k >= OUTER.len() + 4 => {
+                    let real = (1..=3usize).filter(|p| len > *p).map(|p| (len - p) as i32).find(|l| len == *l as usize + crate::codec::varint(*l).len()).unwrap_or(1);
+                    [1i32 << 21, 1 << 28, 1 << 30][k - OUTER.len() - 4] + real
+                }
                 _ => (len as i32 - 2).max(1),
             };
             sc.client.mutations.push(Mutation { frame: fi, op: MutOp::OuterLen { v } });
@@ -315,7 +324,7 @@ pub fn check(sc: &ConnScenario, out: &ConnOutcome, rep: &mut RunReport) {
             MutOp::PadTo { total } if *total <= max && *total >= 40 && f.kind == "Extra" => {
                 // a legal frame at the size limit is consumed like any other (only for the scenario as generated:
                 // ignorable configuration-phase extras sent after Login Acknowledged by a client that goes on)
-                let as_generated = sc.client.send_info && sc.client.mute_after.is_none() && sc.client.extras.iter().all(|x| x.after_ack && matches!(x.id, 0x02 | 0x06));
+                let as_generated = sc.client.send_info && sc.client.mute_after.is_none() && sc.client.extras.iter().all(|x| x.after_ack && matches!(x.id, 0x02 | 0x06 | 0x04));
                 if as_generated && sc.client.mutations.len() == 1 && sc.client.close_after.is_none() && sc.wplan.is_empty() && matches!(sc.client.enc, EncVariant::Honest) && !matches!(out.result.as_str(), "Ok" | "NoTargetFound") {
                     rep.violate("legal_frame_at_the_size_limit_is_consumed", format!("an ignorable frame of {total} bytes (max {max}) ended the connection with {} {}", out.result, out.result_text));
                 }
